@@ -233,7 +233,7 @@ class Ctx:
         self.assumptions = []
         self.rule = ""
         self.alphabet = None
-        self.budget_s = float(os.environ.get("VERIF_BUDGET_S", "0")) or (150 if tier == "quick" else 2700)
+        self.budget_s = float(os.environ.get("VERIF_BUDGET_S", "0")) or (300 if tier == "quick" else 2700)
 
     @property
     def quick(self):
